@@ -59,4 +59,60 @@ theorem unescape_escape : (s : List Char) → unescape (escape s) = some s
     simp only [escape]
     rw [run_escapeChar, ih]
 
+
+/-! ### When is the written form the string itself (a borrowed `&str` can exist)? -/
+
+theorem escapeChar_len_pos (c : Char) : 1 ≤ (escapeChar c).length := by
+  unfold escapeChar
+  repeat' split
+  all_goals simp
+
+theorem escapeChar_len_one (c : Char) (h : (escapeChar c).length = 1) : escapeChar c = [c] := by
+  by_cases h1 : c = '"'
+  · simp [escapeChar, h1] at h
+  by_cases h2 : c = '\\'
+  · simp [escapeChar, h2] at h
+  by_cases h3 : c = '\x08'
+  · simp [escapeChar, h3] at h
+  by_cases h4 : c = '\x0c'
+  · simp [escapeChar, h4] at h
+  by_cases h5 : c = '\n'
+  · simp [escapeChar, h5] at h
+  by_cases h6 : c = '\r'
+  · simp [escapeChar, h6] at h
+  by_cases h7 : c = '\t'
+  · simp [escapeChar, h7] at h
+  by_cases h8 : c.toNat < 32
+  · simp [escapeChar, h1, h2, h3, h4, h5, h6, h7, h8] at h
+  · simp [escapeChar, h1, h2, h3, h4, h5, h6, h7, h8]
+
+theorem escape_length_ge : (s : List Char) → s.length ≤ (escape s).length
+  | [] => by simp [escape]
+  | c :: cs => by
+    have := escape_length_ge cs
+    have := escapeChar_len_pos c
+    simp only [escape, List.length_append, List.length_cons]; omega
+
+theorem escape_len_eq : (s : List Char) → (escape s).length = s.length →
+    ∀ c ∈ s, escapeChar c = [c]
+  | [], _, c, hc => by cases hc
+  | d :: ds, h, c, hc => by
+    have h1 := escape_length_ge ds
+    have h2 := escapeChar_len_pos d
+    simp only [escape, List.length_append, List.length_cons] at h
+    have hd : (escapeChar d).length = 1 := by omega
+    have hds : (escape ds).length = ds.length := by omega
+    cases hc with
+    | head => exact escapeChar_len_one d hd
+    | tail _ hc => exact escape_len_eq ds hds c hc
+
+theorem escape_of_plain : (s : List Char) → (∀ c ∈ s, escapeChar c = [c]) → escape s = s
+  | [], _ => by simp [escape]
+  | d :: ds, h => by
+    simp [escape, h d (List.mem_cons_self ..),
+      escape_of_plain ds (fun c hc => h c (List.mem_cons_of_mem _ hc))]
+
+theorem escape_eq_self_iff (s : List Char) : escape s = s ↔ ∀ c ∈ s, escapeChar c = [c] :=
+  ⟨fun h => escape_len_eq s (by rw [h]), escape_of_plain s⟩
+
 end GluonModel.JsonStr.Proofs
